@@ -8,6 +8,7 @@ import (
 	"github.com/LiskHQ/lisk-engine/pkg/consensus/certificate"
 	"github.com/LiskHQ/lisk-engine/pkg/crypto"
 
+	"verifharness/internal/cx"
 	"verifharness/internal/hx"
 )
 
@@ -71,6 +72,26 @@ func genBLSMatrix(rng *hx.Rng, put func(f string, a map[string]string)) {
 			put("CertVerifyAggregate", map[string]string{"d": hx2(c.Encode()), "keys": hexList(ks), "weights": u64List(weights), "threshold": "1", "chain": "00000000", "gen": gen})
 		}
 		run(keys, goodSig, "valid")
+		// a key replaced by a special point, signature aggregated from exactly the REMAINING valid signers, every key selected:
+		// the special key signed nothing, so verification must fail (and its weight must not count)
+		if nk >= 2 {
+			for pos := 0; pos < nk; pos++ {
+				others := []*crypto.BLSPublicKeySignaturePair{}
+				for i, pr := range pairs {
+					if i != pos {
+						others = append(others, pr)
+					}
+				}
+				_, partial := crypto.BLSCreateAggSig(keys, others)
+				for name, bad := range map[string][]byte{"partial-sig/infinity-key": pts.infKey, "partial-sig/off-subgroup-key": pts.offKey, "partial-sig/nil-key": pts.nilKey} {
+					ks := append([][]byte{}, keys...)
+					ks[pos] = bad
+					a := map[string]string{"keys": hexList(ks), "bits": hx2(bits), "sig": hx2(partial), "weights": u64List(weights), "threshold": cx.U(uint64(nk)), "msg": hx2(msg), "gen": name}
+					put("BLSVerifyWeightedAggSig", a)
+					put("BLSVerifyAggSig", a)
+				}
+			}
+		}
 		for pos := 0; pos < nk; pos++ {
 			for name, bad := range map[string][]byte{"nil-key": pts.nilKey, "infinity-key": pts.infKey, "off-subgroup-key": pts.offKey, "short-key": {0x80}, "empty-key": {}} {
 				ks := append([][]byte{}, keys...)
